@@ -294,17 +294,24 @@ impl QueryRouter {
 
         match command {
             Command::SetShardingKey => {
-                // TODO: some error handling here
-                value = self
-                    .set_sharding_key(value.parse::<i64>().unwrap())
-                    .unwrap()
-                    .to_string();
+                // A number that is not a bigint is not a sharding key: don't handle it,
+                // the server will reject the statement.
+                let sharding_key = match value.parse::<i64>() {
+                    Ok(sharding_key) => sharding_key,
+                    Err(_) => return None,
+                };
+
+                value = self.set_sharding_key(sharding_key).unwrap().to_string();
             }
 
             Command::SetShard => {
                 self.active_shard = match value.to_ascii_uppercase().as_ref() {
                     "ANY" => Some(rand::random::<usize>() % self.pool_settings.shards),
-                    _ => Some(value.parse::<usize>().unwrap()),
+                    _ => match value.parse::<usize>() {
+                        Ok(shard) => Some(shard),
+                        // Not a shard number, let the server reject the statement.
+                        Err(_) => return None,
+                    },
                 };
             }
 
